@@ -16,7 +16,12 @@ RULE = ("part 'faults': ProgGen programs (no failing serializers) run single-thr
         "programs under the await-point scheduler; part 'threads': multi-thread programs under OS scheduling with "
         "switchinterval 1e-6; part 'extractors': programs (incl. finish() inside the action's own context() and blocks entered under another "
         "action than they were created under) with exception extractors of which some raise, so eliot:traceback messages are inserted next "
-        "to end messages. The healthy destination's tape (plus serialize_task_id reservation events) must satisfy: "
+        "to end messages; part 'foreign': a `with start_action()` block entered in one contextvars.Context and left in another (generator holding the action "
+        "across a yield, advanced via copy_context().run / a thread / an asyncio task and closed, thrown into or exhausted elsewhere; __enter__/__exit__ by hand), "
+        "the ValueError a refused exit raises is caught and logging goes on inside the action B open in the closing context: everything emitted satisfies the "
+        "placement invariants and what was logged inside B's block is placed in B; part 'badid': continue_task misused with malformed identifiers (bare task_uuid "
+        "as str/bytes, empty, no '@', two '@') in try/except, once or twice, inside the task, on a thread or after its end: refused or not, what was emitted "
+        "satisfies the invariants. The healthy destination's tape (plus serialize_task_id reservation events) must satisfy: "
         "well-formed metadata, run-wide unique (task_uuid, task_level), positions exactly 1..n per action with start at 1 "
         "and end at n, first uses in increasing order, end message last. non-trivial = >=1 destination-failure report "
         "inserted into a tree of depth >=2, or >=2 concurrently active contexts; distinct by hash of (program shape, masks)")
@@ -33,6 +38,8 @@ def plan(tier, seed):
     specs += conc.c02_specs(tier, seed)
     m = 3000 if tier == "quick" else 30000
     specs += [{"part": "extractors", "seed": seed, "i": i} for i in range(m)]
+    q = 600 if tier == "quick" else 6000
+    specs += [{"part": part, "seed": seed, "lo": i, "hi": min(q, i + 100)} for part in ("foreign", "badid") for i in range(0, q, 100)]
     return specs
 
 
@@ -138,10 +145,310 @@ def one_extractors(spec, res):
         res["violations"].append({"msg": problems[0], "mech": None, "detail": {"part": "extractors", "case": spec["i"], "problems": problems[:8], "program": prog}})
 
 
+def _from_start(m):
+    return (m["task_uuid"], m["task_level"][:-1])
+
+
+def one_foreign(seed, i, res):
+    """A `with start_action(...)` block entered in one contextvars.Context and left in another one: a generator holding the action
+    across a yield, advanced through copy_context().run / a thread / an asyncio task and closed (close, throw, exhaustion) by
+    other code inside that code's own action B; or __enter__/__exit__ called by hand in two contexts. The library may refuse
+    the exit (ValueError) - the program catches that and goes on logging inside B. Whatever was emitted must satisfy the
+    placement invariants, and what was logged inside B's block (B is open in the closing context) must be placed in B."""
+    import asyncio
+    import contextvars
+    import threading
+    from eliot import log_message, start_action
+    rng = random.Random("%s:C02:foreign:%d" % (seed, i))
+    mode = ["gen", "agen", "manual", "gen_thread", "agen", "gen"][i % 6]
+    same_context = rng.random() < 0.15 and mode in ("gen", "manual")  # control: left (through ctx.run) in the context it was entered in
+    a_state = rng.choice(["open", "none"] if same_context else ["finished", "finished", "open", "none"])
+    leave = rng.choice(["close", "close", "throw", "exhaust"])
+    b_kind = rng.choice(["action", "action", "task"])
+    n_after = rng.randint(1, 3)
+    got = []
+    problems = []
+    stats = {"refused": 0, "other_exc": [], "left": 0}
+    add_destinations(got.append)
+
+    def in_b(bid, what):
+        m = got[-1]
+        if _from_start(m) != bid:
+            problems.append("%s was logged inside the block of action B (task %s level %r, open and current in that context) but was emitted as task %s "
+                            "task_level %r" % (what, bid[0][:8], bid[1], m["task_uuid"][:8], m["task_level"]))
+
+    def after_leave(bid):
+        for j in range(n_after):
+            log_message(message_type="fx:b-after", n=j)
+            in_b(bid, "message %d after the foreign block was left" % j)
+        k0 = len(got)
+        with start_action(action_type="fx:C"):
+            cid = _from_start(got[k0])
+            if (cid[0], cid[1][:-1]) != bid or not cid[1]:
+                problems.append("action C was started inside the block of action B (task %s level %r) but its start message is task %s task_level %r" % (
+                    bid[0][:8], bid[1], got[k0]["task_uuid"][:8], got[k0]["task_level"]))
+            log_message(message_type="fx:c-inside")
+            if _from_start(got[-1]) != cid:
+                problems.append("a message logged inside C's block is not placed in C: task_level %r" % (got[-1]["task_level"],))
+        log_message(message_type="fx:b-last")
+        in_b(bid, "the last message of B's block")
+
+    def open_b():
+        from eliot import start_task
+        return start_action(action_type="fx:B") if b_kind == "action" else start_task(action_type="fx:B")
+
+    def guarded(op):
+        stats["left"] += 1
+        try:
+            op()
+        except ValueError:
+            stats["refused"] += 1
+        except (KeyError, StopIteration):
+            pass
+        except Exception as e:
+            stats["other_exc"].append(repr(e))
+
+    def gen():
+        with start_action(action_type="fx:G"):
+            log_message(message_type="fx:g1")
+            yield 1
+            log_message(message_type="fx:g2")
+            yield 2
+
+    def sync_leave(g, run):
+        if leave == "close":
+            guarded(lambda: run(g.close))
+        elif leave == "throw":
+            guarded(lambda: run(g.throw, KeyError("thrown into the generator")))
+        else:
+            guarded(lambda: (run(next, g), run(next, g)))
+
+    def sync_program():
+        manual = {}
+        g = gen()
+        box = {}
+
+        def enter():
+            if mode == "manual":
+                manual["G"] = start_action(action_type="fx:G")
+                manual["G"].__enter__()
+                log_message(message_type="fx:g1")
+            else:
+                next(g)
+
+        def first():
+            # the context (and, for a_state "finished", the action A) in which the block is entered
+            if a_state == "finished":
+                with start_action(action_type="fx:A"):
+                    enter()
+            else:
+                enter()
+
+        def closer():
+            run = box["ctx"].run if same_context else (lambda f, *a: f(*a))
+            k0 = len(got)
+            with open_b():
+                bid = _from_start(got[k0])
+                log_message(message_type="fx:b-before")
+                in_b(bid, "a message before the foreign block was left")
+                if mode == "manual":
+                    guarded(lambda: run(manual["G"].__exit__, None, None, None))
+                else:
+                    sync_leave(g, run)
+                after_leave(bid)
+
+        def both():
+            box["ctx"] = contextvars.copy_context()
+            if mode == "gen_thread":
+                t = threading.Thread(target=box["ctx"].run, args=(first,))
+                t.start()
+                t.join()
+            else:
+                box["ctx"].run(first)
+            closer()
+        if a_state == "open":
+            with start_action(action_type="fx:A"):
+                both()
+        else:
+            both()
+
+    async def agen():
+        with start_action(action_type="fx:G"):
+            log_message(message_type="fx:g1")
+            yield 1
+            log_message(message_type="fx:g2")
+            yield 2
+
+    async def async_program():
+        ag = agen()
+
+        async def leave_it():
+            stats["left"] += 1
+            try:
+                if leave == "close":
+                    await ag.aclose()
+                elif leave == "throw":
+                    await ag.athrow(KeyError("thrown into the generator"))
+                else:
+                    await ag.__anext__()
+                    await ag.__anext__()
+            except ValueError:
+                stats["refused"] += 1
+            except (KeyError, StopAsyncIteration):
+                pass
+            except Exception as e:
+                stats["other_exc"].append(repr(e))
+
+        async def closer():
+            k0 = len(got)
+            with open_b():
+                bid = _from_start(got[k0])
+                log_message(message_type="fx:b-before")
+                in_b(bid, "a message before the foreign block was left")
+                await leave_it()
+                after_leave(bid)
+
+        async def task_a():
+            if a_state == "finished":
+                with start_action(action_type="fx:A"):
+                    await ag.__anext__()
+            else:
+                await ag.__anext__()
+
+        async def both():
+            await asyncio.ensure_future(task_a())
+            await asyncio.ensure_future(closer())
+        if a_state == "open":
+            with start_action(action_type="fx:A"):
+                await both()
+        else:
+            await both()
+
+    try:
+        if mode == "agen":
+            asyncio.run(async_program())
+        else:
+            sync_program()
+    except BaseException as e:
+        problems.append("the program raised %r" % (e,))
+    finally:
+        remove_destination(got.append)
+    entries = [("msg", m) for m in got]
+    problems += oracles.check_placement(entries)
+    c = res["counters"]
+    c["messages_checked"] = c.get("messages_checked", 0) + len(entries)
+    if not same_context:
+        c["foreign_context_exits"] = c.get("foreign_context_exits", 0) + stats["left"]
+        c["foreign_context_exits_refused"] = c.get("foreign_context_exits_refused", 0) + stats["refused"]
+    else:
+        c["same_context_exits_elsewhere"] = c.get("same_context_exits_elsewhere", 0) + stats["left"]
+    res["evals"] += 1
+    res["nontrivial"].append(h(["foreign", mode, same_context, a_state, leave, b_kind, n_after]))
+    if problems:
+        res["violations"].append({"msg": problems[0], "mech": None, "detail": {
+            "part": "foreign", "case": i, "mode": mode, "left_in_entering_context": same_context, "entered_under": a_state, "leave": leave,
+            "B": b_kind, "refused_with_ValueError": stats["refused"], "other_exceptions": stats["other_exc"][:3], "problems": problems[:8],
+            "tape": [{k: m.get(k) for k in ("task_uuid", "task_level", "message_type", "action_type", "action_status")} for m in got][:40]}})
+
+
+def one_badid(seed, i, res):
+    """continue_task misused with a malformed identifier (the bare task_uuid as str or bytes, an empty string, an identifier that
+    lost its '@', one with two '@'), each attempt wrapped in try/except, once or twice, inside the task, on another thread or after
+    the task ended. Refused or not: what was emitted must satisfy the placement invariants."""
+    import threading
+    from eliot import Action, log_message, start_action, start_task
+    rng = random.Random("%s:C02:badid:%d" % (seed, i))
+    kind = ["uuid_str", "uuid_bytes", "empty", "no_at", "two_at", "wellformed", "uuid_str", "empty_bytes", "two_at_tail", "uuid_bytes"][i % 10]
+    where = rng.choice(["inside", "thread", "after"]) if kind != "wellformed" else rng.choice(["inside", "thread"])
+    attempts = 1 if kind == "wellformed" else rng.randint(1, 2)
+    nested = rng.random() < 0.5
+    api = rng.choice(["continue_task", "continueTask"])
+    got = []
+    problems = []
+    stats = {"refused": 0, "accepted": 0}
+    add_destinations(got.append)
+
+    def ident(source):
+        if kind == "wellformed":
+            return source.serialize_task_id() if rng.random() < 0.5 else source.serialize_task_id().decode("ascii")
+        sid = "%s@/%d" % (source.task_uuid, rng.randint(1, 9))
+        return {"uuid_str": source.task_uuid, "uuid_bytes": source.task_uuid.encode("ascii"), "empty": "", "empty_bytes": b"",
+                "no_at": sid.replace("@", ""), "two_at": sid + "@/1", "two_at_tail": sid + "@"}[kind]
+
+    def attempt(tid):
+        for _ in range(attempts):
+            try:
+                with getattr(Action, api)(task_id=tid):
+                    log_message(message_type="bc:remote")
+                    with start_action(action_type="bc:remote-child"):
+                        log_message(message_type="bc:remote-inner")
+            except Exception:
+                stats["refused"] += 1
+            else:
+                stats["accepted"] += 1
+
+    def use(tid):
+        if where == "thread":
+            t = threading.Thread(target=attempt, args=(tid,))
+            t.start()
+            t.join()
+        else:
+            attempt(tid)
+
+    try:
+        pending = []
+        with (start_task if rng.random() < 0.6 else start_action)(action_type="bc:T") as t:
+            for j in range(rng.randint(0, 3)):
+                log_message(message_type="bc:m", n=j)
+            if nested:
+                with start_action(action_type="bc:N") as n_action:
+                    log_message(message_type="bc:in-n")
+                    tid = ident(n_action)
+                    if where == "after":
+                        pending.append(tid)
+                    else:
+                        use(tid)
+                    log_message(message_type="bc:in-n-later")
+            else:
+                tid = ident(t)
+                if where == "after":
+                    pending.append(tid)
+                else:
+                    use(tid)
+            log_message(message_type="bc:later")
+        for tid in pending:
+            use(tid)
+        log_message(message_type="bc:outside")
+    except BaseException as e:
+        problems.append("the program raised %r" % (e,))
+    finally:
+        remove_destination(got.append)
+    entries = [("msg", m) for m in got]
+    problems += oracles.check_placement(entries)
+    c = res["counters"]
+    c["messages_checked"] = c.get("messages_checked", 0) + len(entries)
+    if kind != "wellformed":
+        c["malformed_task_ids_tried"] = c.get("malformed_task_ids_tried", 0) + attempts
+        c["malformed_task_ids_refused"] = c.get("malformed_task_ids_refused", 0) + stats["refused"]
+    else:
+        c["wellformed_task_ids_continued"] = c.get("wellformed_task_ids_continued", 0) + stats["accepted"]
+    res["evals"] += 1
+    res["nontrivial"].append(h(["badid", kind, where, attempts, nested, api]))
+    if problems:
+        res["violations"].append({"msg": problems[0], "mech": None, "detail": {
+            "part": "badid", "case": i, "identifier": kind, "where": where, "attempts": attempts, "source_nested": nested, "api": api,
+            "refused": stats["refused"], "accepted": stats["accepted"], "problems": problems[:8],
+            "tape": [{k: m.get(k) for k in ("task_uuid", "task_level", "message_type", "action_type", "action_status")} for m in got][:40]}})
+
+
 def run_case(spec):
     res = {"evals": 0, "nontrivial": [], "counters": {}, "violations": [], "sample": None}
     if spec["part"] == "extractors":
         one_extractors(spec, res)
+        return res
+    if spec["part"] in ("foreign", "badid"):
+        for i in range(spec["lo"], spec["hi"]):
+            (one_foreign if spec["part"] == "foreign" else one_badid)(spec["seed"], i, res)
         return res
     if spec["part"] == "faults":
         for i in range(spec["lo"], spec["hi"]):
@@ -158,4 +465,8 @@ def finalize(agg, tier):
         return "fewer than 50 failure reports landed inside actions"
     if c.get("extractor_failure_tracebacks_placed", 0) < 50:
         return "fewer than 50 extractor-failure tracebacks were placed"
+    if not c.get("foreign_context_exits", 0):
+        return "no with-block was left in another context than it was entered in"
+    if not c.get("malformed_task_ids_tried", 0):
+        return "continue_task was never tried with a malformed identifier"
     return None
